@@ -418,7 +418,7 @@ def ak_worker(job):
     combos = job
     acc = core.Acc()
     clients = [('h.example', '10.0.0.1'), ('bad.example', '10.0.0.2'), ('other.org', '11.0.0.1'), ('10.0.0.1', '10.0.0.1')]
-    princs = [None, ['alice'], ['root'], ['bob', 'carol']]
+    princs = [None, ['alice'], ['root'], ['bob', 'carol'], [], ()]     # an empty list: a certificate that names no principal
     key = asyncssh.import_public_key(K('k1').export_public_key())
     blob = ' '.join(pub('k1'))
     for combo in combos:
@@ -493,7 +493,7 @@ def main(tier, seed):
             'wildcard/negation subset; 19 damaged key fields (bad base64, truncated, unknown/mismatched algorithm, '
             'well-framed impossible RSA/EC/DSA/Ed parameters) placed before/between/after good lines in both file '
             'types; authorized_keys: option lists of 0-3 atoms over 19 option atoms (quoting, escaped quotes, repeated '
-            'from/principals/environment/permitopen, no-*, cert-authority, unknown) x 4 clients x 4 principal sets')
+            'from/principals/environment/permitopen, no-*, cert-authority, unknown) x 4 clients x 6 principal sets (incl. a certificate naming none)')
     return core.finish(PROP, tier, seed, 'exploration', acc, t0, rule,
                        {'known_hosts_files': len(files), 'known_hosts_lookups': n_kh, 'option_lists': len(combos)},
                        assumptions=['numeric address / CIDR patterns are only compared for the default port (their '
